@@ -79,8 +79,10 @@ Proof. exact vault_fresh_all_enabled. Qed.
    a user or a contract, flash loan by a contract, flash loan through the vault router *)
 Theorem C17_vault_disabled_paths : forall st,
   (dep_on (conf st) = false -> forall u z sent L,
-     failed (step st (ODeposit u z sent)) /\ (is_user st u = true -> step st (ODeposit u z sent) = Err E_DISABLED) /\
-     run_action L (ADeposit z) st = Err E_DISABLED) /\
+     failed (step st (ODeposit u z sent)) /\
+     (is_user st u = true -> kind st || (sent <=? get (ab st) u) = true -> step st (ODeposit u z sent) = Err E_DISABLED) /\
+     failed (run_action L (ADeposit z) st) /\
+     (kind st || (z <=? get (ab st) ADV) = true -> run_action L (ADeposit z) st = Err E_DISABLED)) /\
   (wd_on (conf st) = false -> forall u a L,
      failed (step st (OWithdraw u a)) /\ failed (run_action L (AWithdraw a) st)) /\
   (fl_on (conf st) = false -> forall u z pre s L,
